@@ -329,5 +329,15 @@ func TailFamily() []Query {
 	} {
 		out = append(out, Query{Text: t, Params: DefaultParams, Source: "tail-family", Features: []string{"with:" + t}})
 	}
+	// string predicates over literals that contain the characters LIKE and the SQL string syntax treat specially; the
+	// second literal of each query puts a near miss into the graph domain (the value with the special character replaced)
+	for _, pred := range []string{"CONTAINS", "STARTS WITH", "ENDS WITH", "="} {
+		for _, lit := range [][2]string{{`a\\b`, "ab"}, {"a%b", "axb"}, {"a_b", "axb"}, {`a\\%b`, `a\\xb`}, {`a\'b`, "ab"}, {`\\`, "x"}, {"%", "x"}, {"_", "x"}} {
+			text := fmt.Sprintf("MATCH (n) WHERE n.name %s '%s' OR n.v = '%s' RETURN n.name", pred, lit[0], lit[1])
+			out = append(out, Query{Text: text, Params: DefaultParams, Source: "tail-family", Features: []string{"string-predicate:" + pred, "literal:" + lit[0]}})
+			text = fmt.Sprintf("MATCH (n) WHERE NOT n.name %s '%s' AND n.name <> '%s' RETURN n.name", pred, lit[0], lit[1])
+			out = append(out, Query{Text: text, Params: DefaultParams, Source: "tail-family", Features: []string{"not-string-predicate:" + pred, "literal:" + lit[0]}})
+		}
+	}
 	return out
 }
